@@ -124,7 +124,13 @@ def _is_versionable_type(data):
             # map to a registered class, and from that get a more complete
             # picture of its properties.
 
-            cls = stix2.registry.class_for_type(data.get("type"), stix_version)
+            # (What is versioned is an object, never a marking payload or an
+            # extension which happens to be registered under the same name.)
+            cls = stix2.registry.class_for_type(
+                data.get("type"), stix_version, "objects",
+            ) or stix2.registry.class_for_type(
+                data.get("type"), stix_version, "observables",
+            )
             if cls:
                 is_versionable = _VERSIONING_PROPERTIES.issubset(
                     cls._properties,
